@@ -72,7 +72,7 @@ class RefDeque(M.MDeque):
     return outs
 
 
-def posting(nposters=2, posts=(1, 1), capacity=3, handler_post=False, pending=0, kinds_symbolic=True, with_stop=False, ghost_order=True):
+def posting(nposters=2, posts=(1, 1), capacity=3, handler_post=False, pending=0, kinds_symbolic=True, with_stop=False, ghost_order=True, spare=0):
   """posters x consumer of one active object (C04, C05).
   posts[i] = number of posts of poster i; every post's kind (fifo/lifo) is a symbolic input bit."""
   import miros.activeobject as ao
@@ -96,7 +96,9 @@ def posting(nposters=2, posts=(1, 1), capacity=3, handler_post=False, pending=0,
       sc.ghost["disp.e%d" % r.rid] = 0
   stop_ev = EV.new(signal=SK(sig.attrs["STOP_ACTIVE_OBJECT_SIGNAL"], 8), signal_name=SK(sc.strings.code("STOP"), "STOP"))
   pend = events[len(events) - pending:] if pending else []
-  Q = sc.add(M.MQueue("Q", capacity, count=len(pend)))
+  # spare = wake-up tokens without an event (left behind when the consumer handled an event that a top-up token announced: a state real
+  # runs reach, see the spurious wake-ups in C04's own traces)
+  Q = sc.add(M.MQueue("Q", capacity, count=len(pend) + spare))
   if ghost_order:
     D = sc.add(RefDeque("D", capacity, kinds, items=[e.rid for e in pend]))
   else:
